@@ -40,6 +40,8 @@ class PropDef:
     poison = False
     cross_config = False
     blocks_exhaustive = False
+    skip_model_ub = False   # cases on which the model says `ub` lie outside the property's hypothesis
+    ub_is_known = False
     rule = ""
     assumptions = []
     trivial_prefixes = ()
@@ -914,3 +916,107 @@ class C12(PropDef):
             return _oracle.c12_oracle(case, impl)
         except Exception as e:
             return "oracle could not parse the observation: %r" % (e,)
+
+
+class HSweepProp(SweepProp):
+    skip_model_ub = True
+    assumptions = ["the region is 8-aligned and readable for its declared length; enumerated fields (architecture, tag type, tag "
+                   "flags, console flags, relocation preference) hold defined values - the hypothesis of C09-C11"]
+
+    def oracle(self, case, impl, config):
+        if not case.startswith("HSWEEP"):
+            return None
+        if impl.startswith("crash"):
+            return "the process crashed (%s)" % impl
+        try:
+            return type(self).oracle_fn(case, impl)
+        except Exception as e:
+            return "oracle could not parse the observation: %r" % (e,)
+
+
+@register
+class C11(HSweepProp):
+    id = "C11"
+    oracle_fn = staticmethod(_oracle.c11_oracle)
+    rule = ("HSWEEP over valid headers: each of the 11 header-tag kinds alone (x3) and duplicated with differing contents, "
+            "information-request lists of every length 0..8, random multisets/orders with random field bytes, both "
+            "architectures; observed: the four header accessors + verify_checksum, the tag iterator (offset, raw type, flags, "
+            "size, payload length), every typed getter with every field accessor and Debug. Python oracle decodes from the raw "
+            "bytes at the specification's offsets. Non-trivial = distinct cases that load.")
+
+    def gen(self, tier, rng):
+        return _mbi.gen_headers_wellformed(rng, 300 if tier == "quick" else 3000)
+
+
+@register
+class C09(HSweepProp):
+    id = "C09"
+    poison = True
+    oracle_fn = staticmethod(_oracle.c09_oracle)
+    rule = ("HSWEEP over adversarial headers with in-range enumerated fields: every tag kind with declared sizes "
+            "{0,1,4,7,8,9,11,12,13,size-1,size+1,occupied,occupied+1,+8,+9,24,2^31-1,2^32-8,2^32-1} alone and between random "
+            "neighbours, corrupted sizes at random positions, header lengths {0,8,15,16,17,24,L-16,L-8}, missing end tag; region "
+            "flush against a PROT_NONE page, two poison fills, crash detection. Non-trivial = distinct cases that load.")
+
+    def gen(self, tier, rng):
+        return _mbi.gen_headers_adversarial(rng, 300 if tier == "quick" else 3000) + _mbi.gen_headers_wellformed(rng, 50)
+
+
+@register
+class C08(PropDef):
+    id = "C08"
+    cross_config = True
+    ub_is_known = True
+    rule = ("the parsing families of both crates (LOAD, REF, WALK, SWEEP incl. Debug, ELFNAME, HLOAD, HSWEEP, FIND, CKS, CAST, FBT) "
+            "on well-formed and adversarial inputs, run through FOUR builds of the real code - {dev with overflow checks, "
+            "release without} x {default features, --no-default-features} - whose transcripts must be pairwise identical and "
+            "equal to the model of the respective profile; arithmetic sites are driven to their overflow points (module end < "
+            "start, area base+length >= 2^64, section addr+size >= 2^64, entry_size*shndx >= 2^32, checksum operands summing "
+            "above 2^32, sizes below the header size). Non-trivial = distinct cases whose outcome is not a load error.")
+    assumptions = ["inputs that put an undeclared value into an enum-typed field of multiboot2-header are undefined behaviour "
+                   "(known finding F20): they are recognised by the model (`UB`) and reported as KNOWN-FINDING, not compared"]
+
+    def configs(self, tier):
+        return ["dev", "release", "dev-nodef", "release-nodef"]
+
+    def trivial(self, model_line):
+        return model_line.startswith("ld=err") or model_line.startswith("err:")
+
+    def gen(self, tier, rng):
+        q = tier == "quick"
+        cases = []
+        cases += PROPS["C02"].gen(tier, rng)[:: (3 if q else 1)]
+        cases += [c for c in PROPS["C14"].gen(tier, rng) if c.startswith("REF") and " dummy " not in c][:: (6 if q else 1)]
+        cases += PROPS["C03"].gen(tier, rng)[:: (4 if q else 1)]
+        cases += PROPS["C01"].gen(tier, rng)[:: (3 if q else 1)]
+        cases += PROPS["C10"].gen(tier, rng)[:: (2 if q else 1)]
+        cases += PROPS["C09"].gen(tier, rng) + PROPS["C11"].gen(tier, rng)[:: (3 if q else 1)]
+        cases += PROPS["C13"].gen(tier, rng)[:: (8 if q else 1)]
+        cases += [c for c in PROPS["C15"].gen(tier, rng) if c.startswith("CAST")][:: (5 if q else 1)]
+        cases += ["FBT %d" % b for b in range(256)]
+        # arithmetic overflow points
+        m = _mbi
+        cases.append(m.sweep(m.mbi([m.tag(3, u32(10) + u32(5) + b"m\0")])))
+        cases.append(m.sweep(m.mbi([m.tag(3, u32(0xFFFFFFFF) + u32(0) + b"\0")])))
+        cases.append(m.sweep(m.mbi([m.tag(6, u32(24) + u32(0) + u64((1 << 64) - 1) + u64(3) + u32(1) + u32(0))])))
+        cases.append(m.sweep(m.mbi([m.tag(6, u32(24) + u32(0) + u64(1 << 63) + u64(1 << 63) + u32(1) + u32(0))])))
+        for es in (40, 64):
+            e = bytearray(m.elf_entry(rng, es, 1))
+            if es == 40:
+                e[12:16] = u32(0xFFFFFFFF)
+                e[20:24] = u32(0xFFFFFFFF)
+            else:
+                e[16:24] = u64((1 << 64) - 1)
+                e[32:40] = u64(2)
+            cases.append(m.sweep(m.mbi([m.tag(9, u32(1) + u32(es) + u32(0) + bytes(e))])))
+        # F20: header tags with undeclared enum values (known finding; the model answers UB)
+        for bad_typ in (11, 12, 255):
+            cases.append(m.hsweep(m.header([m.htag(bad_typ, 0, rbytes(rng, 8))])))
+        cases.append(m.hsweep(m.header([m.htag(4, 0, u32(2))])))
+        cases.append(m.hsweep(m.header([m.htag(10, 0, u32(1) + u32(2) + u32(3) + u32(7))])))
+        return cases
+
+    def oracle(self, case, impl, config):
+        if impl.startswith("crash"):
+            return "the process crashed (%s)" % impl
+        return None
